@@ -520,7 +520,26 @@ func histories(x *ctx, maxSteps int) [][]stepT {
 	return out
 }
 
+// FirstCalls is the menu of the fresh-process call-order check: whole histories against forked logs.
+func FirstCalls() []fw.Call {
+	var out []fw.Call
+	for i, c := range []caseT{
+		{P: 3, A: 5, B: 4, H: 2, Stored: 3, Cache: "cold", Steps: []stepT{{Rec: 0, Server: "A"}, {Rec: 3, Server: "B"}}},
+		{P: 2, A: 3, B: 3, H: 1, Stored: -1, Cache: "cold", Steps: []stepT{{Rec: 1, Server: "B"}, {Rec: 2, Server: "A", Restart: true}}},
+		{P: 3, A: 4, B: 5, H: 1, Stored: 4, Cache: "warm", Steps: []stepT{{Rec: 2, GoMod: true, Server: "B@4"}}},
+		{P: 1, A: 3, B: 2, H: 2, Stored: 1, Cache: "cold", Steps: []stepT{{Rec: 0, Server: "bogus"}, {Rec: 0, Server: "A"}}},
+	} {
+		i, c := i, c
+		out = append(out, fw.Call{Name: fmt.Sprintf("history-%d", i), F: func() string {
+			msg, class, env := newCtx(c.P, c.A, c.B).exec(c)
+			return fmt.Sprint(msg, "|", class, "|", len(env.Security), len(env.ConfigWrites))
+		}})
+	}
+	return out
+}
+
 func Run(r *fw.Run) {
+	defer fw.FirstCallOrders(r, r.ID, FirstCalls(), nil)
 	pmax := r.Pick(3, 5)
 	extra := r.Pick(2, 3)
 	maxSteps := r.Pick(2, 3)
